@@ -816,6 +816,8 @@ static size_t derSIDDec2(u32 val, const char* oid)
 	while (t > 0);
 	// сравнение
 	ASSERT(strIsValid(oid));
+	if (strLen(oid) < count)
+		return SIZE_MAX;
 	pos = count - 1;
 	if (oid[pos] != '0' + (char)((t = val) % 10))
 		return SIZE_MAX;
